@@ -88,7 +88,12 @@ CallOk(e) ==
         \* nothing to show: whatever is emitted consists of codes only and leaves the default state; nothing at all without colours
         LET all == AccBytes(e.inner)
             c   == CodesOnly(all, Default)
-        IN e.ret[2] = 0 /\ ~hard /\ c[1] /\ c[2] = Default /\ Kept(all) = <<>> /\ ((e.fg = 16 /\ e.bg = 16) => all = <<>>)
+        IN /\ e.ret[2] = 0 /\ ~hard /\ c[1] /\ c[2] = Default /\ Kept(all) = <<>> /\ ((e.fg = 16 /\ e.bg = 16) => all = <<>>)
+           \* the frame is emitted around empty data as well: codes that select the colours, then codes that restore the default
+           /\ ((e.fg # 16 \/ e.bg # 16) =>
+                 \E i \in 1..Len(all) : LET p1 == CodesOnly(SubSeq(all, 1, i), Default)
+                                            p2 == CodesOnly(SubSeq(all, i + 1, Len(all)), p1[2])
+                                        IN p1[1] /\ p1[2] = Want(e.fg, e.bg) /\ p2[1] /\ p2[2] = Default)
      ELSE IF kind = "ok" THEN
         LET n    == e.ret[2]
             pre  == AccWhere(e.inner, e.data, "pre")
@@ -110,4 +115,6 @@ CallOk(e) ==
           /\ (\E k \in 1..Len(e.inner) : e.inner[k][2] = kind \/ (kind = "eZ" /\ e.inner[k][2] = "ok" /\ e.inner[k][3] = 0))
           \* Interrupted surfaces only from the DATA write (a single `write`); on a code it is retried, not returned
           /\ (kind = "eI" => LET last == e.inner[Len(e.inner)] IN last[2] = "eI" /\ last[1] = e.data)
+          \* a failure ends the call: the failed inner write is the last one (nothing is written behind an error)
+          /\ (kind \in {"eW", "eO"} => e.inner[Len(e.inner)][2] = kind)
 =============================================================================
